@@ -424,7 +424,8 @@ def r14i(model, ctx):
     g = model.func(f"{W}::Signature.is_compliant.check_dimensions")
     pm = parent_map(g)
     brk = [n for n in ast.walk(g) if isinstance(n, ast.Break)]
-    need(brk, "is_compliant.check_dimensions: the early exit of the element loop was not found")
+    if not brk:
+        ctx.ok(R, "is_compliant.check_dimensions:early-exit", "no early exit: every element is checked", f"{W}:{g.lineno}")
     for b in brk:
         conds = [(unparse(t), pol) for t, pol in dominating_conditions(pm, b, g)]
         after_failure = any(t.startswith("not check_dimensions(") and pol or t.startswith("check_dimensions(") and not pol for t, pol in conds)
